@@ -103,6 +103,7 @@ func (c *collector) mergeFrom(o *collector) {
 
 // emit files every collected violation with the run.
 func (c *collector) emit(add func(sig, what string, cs, obs, exp any, n int64)) {
+	c.fold()
 	sigs := make([]string, 0, len(c.m))
 	for s := range c.m {
 		sigs = append(sigs, s)
@@ -119,6 +120,68 @@ func (c *collector) emit(add func(sig, what string, cs, obs, exp any, n int64)) 
 			add(s+" splitting=off-only", r.What, r.Case[0], r.Obs[0], r.Exp[0], r.Count[0])
 		default:
 			add(s+" splitting=on-only", r.What, r.Case[1], r.Obs[1], r.Exp[1], r.Count[1])
+		}
+	}
+}
+
+var declQualRe = regexp.MustCompile(` decl=[A-Za-z0-9]+`)
+var cfgQualRe = regexp.MustCompile(` cfg=([a-z-]+(\+[a-z-]+)+)`)
+
+// fold merges a qualified signature into the signature that names the root cause more generally when that one
+// was reported too: " decl=<shape>" (a declaration shape fails the way a tagless shape does) and a composite
+// " cfg=a+b+c" (the flavor with every option fails the way the flavor with one of its options does).
+func (c *collector) fold() {
+	sigs := make([]string, 0, len(c.m))
+	for s := range c.m {
+		sigs = append(sigs, s)
+	}
+	sort.Strings(sigs)
+	into := func(from, to string) {
+		r, v := c.m[to], c.m[from]
+		for i := 0; i < 2; i++ {
+			if v.Count[i] == 0 {
+				continue
+			}
+			if r.Count[i] == 0 {
+				r.Case[i], r.Obs[i], r.Exp[i], r.Ord[i] = v.Case[i], v.Obs[i], v.Exp[i], v.Ord[i]
+			}
+			r.Count[i] += v.Count[i]
+		}
+		delete(c.m, from)
+	}
+	for _, s := range sigs {
+		if m := cfgQualRe.FindStringSubmatch(s); m != nil {
+			for _, one := range strings.Split(m[1], "+") {
+				stem := strings.Replace(s, m[0], " cfg="+one, 1)
+				if _, ok := c.m[stem]; ok {
+					into(s, stem)
+					break
+				}
+			}
+		}
+	}
+	for _, s := range sigs {
+		// the envelope with every companion at once fails the way the envelope with one of them does
+		if _, ok := c.m[s]; !ok || !strings.Contains(s, " option=everything ") {
+			continue
+		}
+		pre, post, _ := strings.Cut(s, " option=everything ")
+		for _, o := range sigs {
+			if o != s && strings.HasPrefix(o, pre+" option=") && strings.HasSuffix(o, " "+post) {
+				if _, ok := c.m[o]; ok {
+					into(s, o)
+					break
+				}
+			}
+		}
+	}
+	for _, s := range sigs {
+		if _, ok := c.m[s]; !ok || !declQualRe.MatchString(s) {
+			continue
+		}
+		stem := declQualRe.ReplaceAllString(s, "")
+		if _, ok := c.m[stem]; ok {
+			into(s, stem)
 		}
 	}
 }
@@ -141,7 +204,10 @@ type shape struct {
 	Values []any
 }
 
-type variant struct{ split, auto, viaBody bool }
+type variant struct {
+	split, auto, viaBody bool
+	ptr                  bool // the client is handed a pointer to the struct (declaration family, decl.go)
+}
 
 func dedupe(vs []any) []any {
 	seen := map[string]bool{}
@@ -233,6 +299,21 @@ func roundTrip(st *station, src source, v any) (kind string, d *diff, detail str
 	return st.judge(status, body, err, v)
 }
 
+// roundTripPtr hands the client a pointer to a copy of v.
+func roundTripPtr(st *station, src source, v any) (kind string, d *diff, detail string) {
+	status, body, err := st.send(src, pointerTo(v))
+	return st.judge(status, body, err, v)
+}
+
+// declQual: signature qualifier of the declaration shapes; emit folds it away when the unqualified signature
+// (a shape without tags fails the same way) is reported too.
+func declQual(shape string) string {
+	if shape == "S1" || shape == "S2" {
+		return ""
+	}
+	return " decl=" + shape
+}
+
 // judge classifies what the station's handler observed for the request just sent against the value v the
 // client was configured with.
 func (st *station) judge(status int, body string, err error, v any) (kind string, d *diff, detail string) {
@@ -261,6 +342,13 @@ func partA(r *core.Run, col *collector, sp *sampler) (shapes []shape) {
 	shapes = []shape{
 		{"S1", func() any { return new(S1) }, dedupe(s1Values(r.Quick()))},
 		{"S2", func() any { return new(S2) }, dedupe(s2Values(r.Quick()))},
+		{"T1", func() any { return new(T1) }, t1Values(r.Quick())},
+		{"K1", func() any { return new(K1) }, k1Values(r.Quick())},
+	}
+	if noDecl {
+		for i := 2; i < 4; i++ {
+			shapes[i].Values = nil
+		}
 	}
 	type item struct {
 		sh     *shape
@@ -280,7 +368,7 @@ func partA(r *core.Run, col *collector, sp *sampler) (shapes []shape) {
 			}
 			for src := source(0); src < nSources; src++ {
 				items = append(items, item{sh, src, lo, hi, ord})
-				ord += int64(hi-lo) * 8
+				ord += int64(hi-lo) * 16
 			}
 		}
 	}
@@ -307,15 +395,23 @@ func partA(r *core.Run, col *collector, sp *sampler) (shapes []shape) {
 		var variants []variant
 		for _, split := range []bool{false, true} {
 			for _, auto := range []bool{false, true} {
-				variants = append(variants, variant{split, auto, false})
+				variants = append(variants, variant{split: split, auto: auto})
 				if it.src.isBody() {
-					variants = append(variants, variant{split, auto, true})
+					variants = append(variants, variant{split: split, auto: auto, viaBody: true})
 				}
 			}
+		}
+		// the client is handed a pointer: one server configuration for the tagless shapes, two for the declaration shapes
+		if !noDecl {
+			variants = append(variants, variant{split: false, auto: false, ptr: true})
+		}
+		if declQual(it.sh.Name) != "" {
+			variants = append(variants, variant{split: true, auto: true, ptr: true})
 		}
 		for vi := it.lo; vi < it.hi; vi++ {
 			v := it.sh.Values[vi]
 			directKind := ""
+			byValueKind := map[[2]bool]string{}
 			for vj, vr := range variants {
 				legal, comma := carrierVerdict(it.src, vr.split, v)
 				if !legal {
@@ -331,10 +427,18 @@ func partA(r *core.Run, col *collector, sp *sampler) (shapes []shape) {
 					st = sts[1]
 				}
 				st.ctl = ctl{src: it.src, viaBody: vr.viaBody, auto: vr.auto, newDst: it.sh.New}
-				caseOrd := it.ord + int64(vi-it.lo)*8 + int64(vj)
-				kind, d, detail := roundTrip(st, it.src, v)
-				if !vr.viaBody {
+				caseOrd := it.ord + int64(vi-it.lo)*16 + int64(vj)
+				var kind, detail string
+				var d *diff
+				if vr.ptr {
+					kind, d, detail = roundTripPtr(st, it.src, v)
+					l.Add("roundtrips_pointer_argument", 1)
+				} else {
+					kind, d, detail = roundTrip(st, it.src, v)
+				}
+				if !vr.viaBody && !vr.ptr {
 					directKind = kind
+					byValueKind[[2]bool{vr.split, vr.auto}] = kind
 				}
 				l.Add("evaluations", 1)
 				l.Add("roundtrips", 1)
@@ -344,7 +448,7 @@ func partA(r *core.Run, col *collector, sp *sampler) (shapes []shape) {
 				if kind == "" {
 					l.Outcome(fmt.Sprintf("A %s %s equal", it.sh.Name, it.src))
 					if caseOrd%4099 == 17 && interesting(v) {
-						sp.add(caseOrd, map[string]any{"part": "roundtrip", "source": it.src.String(), "splitting": vr.split, "auto": vr.auto, "via_body": vr.viaBody,
+						sp.add(caseOrd, map[string]any{"part": "roundtrip", "source": it.src.String(), "splitting": vr.split, "auto": vr.auto, "via_body": vr.viaBody, "pointer_argument": vr.ptr,
 							"sent": goLit(v), "decoded": goLit(st.obs.got), "wire": wireHead(st.wire)})
 					}
 					continue
@@ -384,9 +488,14 @@ func partA(r *core.Run, col *collector, sp *sampler) (shapes []shape) {
 					// configuration) does not fail the same way
 					via = " via=Body()-only"
 				}
-				sig := fmt.Sprintf("roundtrip %s src=%s%s field-kind=%s sent=%s%s", kind, it.src, via, fkind, fclass, extra)
+				arg := ""
+				if vr.ptr && byValueKind[[2]bool{vr.split, vr.auto}] != kind {
+					// the pointer is named only when the same value handed over by value (run before, same configuration) does not fail the same way
+					arg = " arg=pointer-only"
+				}
+				sig := fmt.Sprintf("roundtrip %s src=%s%s field-kind=%s sent=%s%s%s%s", kind, it.src, via, fkind, fclass, declQual(it.sh.Name), arg, extra)
 				mine.add(sig, vr.split, caseOrd, "value decoded by the binder differs from the value the bundled client sent ("+kind+")",
-					map[string]any{"shape": it.sh.Name, "source": it.src.String(), "splitting": vr.split, "auto_handling": vr.auto, "via_body": vr.viaBody,
+					map[string]any{"shape": it.sh.Name, "source": it.src.String(), "splitting": vr.split, "auto_handling": vr.auto, "via_body": vr.viaBody, "pointer_argument": vr.ptr,
 						"sent": goLit(v), "field": fname, "wire": wire},
 					map[string]any{"decoded": got, "detail": detail}, "decoded == sent (nil and empty slices identified)")
 			}
@@ -502,6 +611,9 @@ func main() {
 	tC := time.Now()
 	hb := partC(r, col, sp, 1<<40)
 	dC := time.Since(tC)
+	tD := time.Now()
+	fb := partD(r, col, sp, 1<<41)
+	dD := time.Since(tD)
 	debug.SetGCPercent(100)
 	debug.FreeOSMemory() // the worker processes need the memory now
 	var samplesA []any
@@ -509,16 +621,20 @@ func main() {
 		samplesA = append(samplesA, m)
 	}
 	{
-		// the lowest-ordered samples of the round-trip part and of the history part
-		var a, c []any
+		// the lowest-ordered samples of every part / family
+		by := map[string][]any{}
 		for _, m := range samplesA {
-			if m.(map[string]any)["part"] == "history" {
-				c = append(c, m)
-			} else {
-				a = append(a, m)
-			}
+			p, _ := m.(map[string]any)["part"].(string)
+			by[p] = append(by[p], m)
 		}
-		samplesA = append(lowest(a, 3), lowest(c, 3)...)
+		samplesA = nil
+		for _, p := range []string{"roundtrip", "history", "configuration", "combined", "envelope"} {
+			n := 2
+			if p == "roundtrip" || p == "history" {
+				n = 3
+			}
+			samplesA = append(samplesA, lowest(by[p], n)...)
+		}
 	}
 	r.P.Samples = nil
 	{
@@ -530,7 +646,7 @@ func main() {
 	nw := runtime.NumCPU()
 	tB := time.Now()
 	crashed := r.SpawnWorkers(nw, []string{"GOMAXPROCS=1"}, "-allocbudget", fmt.Sprint(budget))
-	r.Note(fmt.Sprintf("wall: round-trip part %.1fs and history part %.1fs on %d goroutines, totality part %.1fs on %d worker processes", dA.Seconds(), dC.Seconds(), runtime.GOMAXPROCS(0), time.Since(tB).Seconds(), nw))
+	r.Note(fmt.Sprintf("wall: round-trip part %.1fs, history part %.1fs and families part %.1fs on %d goroutines, totality part %.1fs on %d worker processes", dA.Seconds(), dC.Seconds(), dD.Seconds(), runtime.GOMAXPROCS(0), time.Since(tB).Seconds(), nw))
 	sort.Strings(crashed)
 	for _, c := range crashed {
 		if strings.Contains(c, "exit status 2") {
@@ -573,13 +689,20 @@ func main() {
 			"rule": fmt.Sprintf("Part A: every value of S1{Str,Strs} (%d values: Str over %d strings x Strs over all lists of length <= 2 (quick: <= 1, plus length 2 over 8 symbols) + lists of length 3 over 6 symbols (thorough) + a 40-element list + the empty non-nil slice) and of S2{I,I8,U,U32,F64,F32,B,Is,Fs,Bs,Us,F32s} (%d values: scalar product x 3 slice configurations, plus scalar base points x product of the slice lists) "+
 				"is sent with the bundled client's struct API of each of the 8 sources under splitting{off,on} x auto-handling{off,on} x {per-source bind method, Bind().Body() for body carriers} and compared with the struct decoded in the handler; pairs the carrier cannot legally transport, and comma-containing values under splitting, are skipped and counted; a case is non-trivial when the sent struct holds something an encoder/decoder pair can get wrong (a string that is empty or has a byte outside [A-Za-z0-9], a non-empty slice, a number at a type limit / non-integral / beyond 2^53). "+
 				"Part C (client-side histories): every ordered pair over %d S1 and %d S2 history values (Str in {empty, a, %%41} x Strs in {nil, empty non-nil, [empty string], 1, 2, 3 elements}; scalars jointly {zero, small, extreme} x slices jointly {nil, empty non-nil, one zero element, one non-zero element, two elements}) and every ordered triple over %d / %d of them is configured into ONE client-side container of every carrier that has one - the same Request object (struct setter applied 2-3 times, one send), the client-wide defaults (updated 2-3 times, a bare request after every update), consecutive requests from one client's request pool, and a Request whose body was first set through another body carrier - and the struct decoded by the server is compared with the value configured LAST; a failure that the same value shows on a fresh request is filed under the part-A signature; non-trivial = two consecutive steps configure different values. "+
-				"Part B: %d groups (5 key-value carriers x 5 bind targets x splitting; 5 body bind calls x 10 content types x 3 targets) each over all single hostile components and all ordered pairs of them, each request run with manual and automatic handling, judged for panic / error / status / paired consistency / allocation; non-trivial = the request got past the HTTP parser and reached the binder.",
-				len(shapes[0].Values), len(strAlpha), len(shapes[1].Values), hb.H1Values, hb.H2Values, hb.H1TripleValues, hb.H2TripleValues, len(groups)),
+				"Declaration family (part A): two more shapes, T1 (%d values: every field with a different name per carrier through param/query/form/header/cookie/json/xml/cbor tags, two string fields and the int / []int fields with CROSSED names, one untagged field) and K1 (%d values: int, int16, int32, uint, uint8, uint16, slices of int8..uint32, a string, an unexported field) run through the same product, and for every shape extra variants in which the client is handed a POINTER to the struct. "+
+				"Part D (families over compact value sets of all four shapes, %d+%d+%d+%d values): configuration - %d station flavors with a configuration field that is redundant for binding (accept-all StructValidator, Immutable, StreamRequestBody, explicit default codecs, custom binders registered for %d neighbour MIME types of the standard ones, a custom binder serving application/json; each alone and all together) x carriers x splitting x auto x {direct, Body()}; combined - one request carries a different value in query, header, cookie and one of {no body, form, multipart, json, xml, cbor} (every (query value, body value) pair, header and cookie values rotated) and the handler runs a bind program on it (%d programs for four carriers: an adjacency-covering set of bind orders - thorough: all permutations, body step direct and through Body() - every source bound twice, body bound through Body() and directly in both orders), every bind judged against the value put into ITS source; envelope - the struct travels in a request that also has one of %d envelope options (URL with own query / fragment, client base URL, unrelated param / header / cookie / form field on the Request before or after the struct setter or client-wide, User-Agent + Referer, cookie jar with a cookie for this and for another host, methods PUT / PATCH / DELETE / POST, everything at once). A family failure that the same value shows alone on a plain fresh request is filed under the part-A signature. "+
+				"Part B: %d groups (5 key-value carriers x 9 bind targets x splitting - S1, S2, S3, two string maps over the 31 hostile keys; S4 (embedded struct, unexported fields, pointers, array, interface, nested slices, time, file headers, slices of structs, bytes, a tagged field), the tagged T1, map[string]any and map[string]int over 38 keys that resolve against those declarations; in the multipart carrier every key also as a FILE part; 5 body bind calls x 10 content types x 3 targets) each over all single hostile components and all ordered pairs of them, each request run with manual and automatic handling, judged for panic / error / status / paired consistency / allocation; non-trivial = the request got past the HTTP parser and reached the binder.",
+				len(shapes[0].Values), len(strAlpha), len(shapes[1].Values), hb.H1Values, hb.H2Values, hb.H1TripleValues, hb.H2TripleValues,
+				len(shapes[2].Values), len(shapes[3].Values), hb.H1Values, hb.H2Values, len(t1Compact()), len(k1Compact()), fb.Flavors, len(neighbourMIMEs), fb.ComboPrograms, fb.EnvOptions, len(groups)),
 			"bounds": map[string]any{
 				"string_alphabet": alpha, "s1_values": len(shapes[0].Values), "s2_values": len(shapes[1].Values),
-				"hostile_keys": len(hostileKeys), "hostile_values": len(hostileVals), "hostile_body_fragments": len(bodyFrags), "content_types": len(ctypes),
+				"hostile_keys": len(hostileKeys), "hostile_keys_rich_targets": len(richKeys), "totality_targets": len(targets), "hostile_values": len(hostileVals), "hostile_body_fragments": len(bodyFrags), "content_types": len(ctypes),
 				"history_values_s1": hb.H1Values, "history_values_s2": hb.H2Values, "history_pairs": hb.Pairs, "history_triples": hb.Triples, "history_max_steps": 3,
 				"history_container_x_carrier_cells": hb.Cells, "histories_run": r.P.Counters["histories"], "history_requests_sent": r.P.Counters["history_sends"],
+				"t1_values": len(shapes[2].Values), "k1_values": len(shapes[3].Values), "roundtrips_pointer_argument": r.P.Counters["roundtrips_pointer_argument"],
+				"cfg_flavors": fb.Flavors, "cfg_neighbour_mime_types": len(neighbourMIMEs), "cfg_roundtrips": fb.CfgCases,
+				"combined_requests": fb.ComboRequests, "combined_binds": r.P.Counters["combined_binds"], "combined_programs_four_carriers": fb.ComboPrograms,
+				"envelope_options": fb.EnvOptions, "envelope_requests": fb.EnvCases,
 				"max_components_per_hostile_request": 2, "totality_groups": len(groups), "totality_cases": totalCases,
 				"alloc_budget_bytes": budget, "alloc_max_wellformed_bytes": maxWF, "alloc_wellformed_calibration": calib,
 				"alloc_rule": "budget = 64 x the largest TotalAlloc delta of a well-formed request (40-element slices, 300-byte strings) over all carriers, at least 1 MiB, rounded up to a power of two; measured per batch of 64 request pairs and per request when a batch exceeds it",
@@ -589,6 +712,8 @@ func main() {
 			"the in-memory fasthttp.RoundTripper writes the request with Request.Write and reads the answer with Response.Read exactly as fasthttp's own transport does; connection management of the client is not exercised",
 			"header structs are sent with client.SetValWithStruct (the exported encoder behind the *WithStruct request methods) feeding Request.AddHeader, because Request has no header struct method",
 			"multipart is what the client produces for form data plus one attached file",
+			"declaration family: a struct shared by client and server names a field identically under the client's tag and the binder's tag of a carrier (param + query, form, cookie, header, json, xml, cbor); tag options (omitempty, required, default) and the '-' name are not used",
+			"combined / envelope / configuration families: keys the shape does not declare (companion parameters, headers, cookies, form fields; the other carriers' keys) are ignored by the binder (its documented default) and do not change the bound value",
 			"histories: headers have no struct setter (Request or Client) and take part only in the consecutive-pooled-requests histories; a value set client-wide combined with a different value on the request, and a Request object sent twice, are outside the statement (the client merges / accumulates) and are not judged",
 			"carrier legality: header values without CR/LF/NUL/edge whitespace; cookie values of RFC 6265 cookie-octets; JSON/CBOR valid UTF-8; XML 1.0 Char; JSON cannot carry infinities",
 			"equality: numeric == on numbers (so -0 equals 0), byte equality on strings, nil and empty slices identified; NaN is not in the alphabet",
